@@ -336,6 +336,32 @@ func (r *SparseFloat32Vector) VDIVS(a *SparseFloat32Vector, b Float32) *SparseFl
   return r
 }
 /* -------------------------------------------------------------------------- */
+// True if r and b share elements, for instance if both are overlapping slices
+// of the same vector.
+func (r *SparseFloat32Vector) sharesElementsWith(b_ ConstVector) bool {
+  if r.Dim() == 0 || b_.Dim() == 0 {
+    return false
+  }
+  b, ok := b_.(*SparseFloat32Vector)
+  if !ok {
+    return r.AT(0) == b_.ConstAt(0)
+  }
+  if r == b {
+    return true
+  }
+  // slices share the scalars that were stored when the slice was taken
+  m := make(map[Float32]struct{}, len(r.values))
+  for _, s := range r.values {
+    m[s] = struct{}{}
+  }
+  for _, s := range b.values {
+    if _, ok := m[s]; ok {
+      return true
+    }
+  }
+  return false
+}
+/* -------------------------------------------------------------------------- */
 // Matrix vector product of a and b. The result is stored in r.
 func (r *SparseFloat32Vector) MdotV(a ConstMatrix, b ConstVector) Vector {
   n, m := a.Dims()
@@ -349,7 +375,7 @@ func (r *SparseFloat32Vector) MdotV(a ConstMatrix, b ConstVector) Vector {
     }
     return r
   }
-  if r.AT(0) == b.ConstAt(0) {
+  if r.sharesElementsWith(b) {
     panic("result and argument must be different vectors")
   }
   t := NullFloat32()
@@ -378,7 +404,7 @@ func (r *SparseFloat32Vector) VdotM(a ConstVector, b ConstMatrix) Vector {
     }
     return r
   }
-  if r.AT(0) == a.ConstAt(0) {
+  if r.sharesElementsWith(a) {
     panic("result and argument must be different vectors")
   }
   t := NullFloat32()
